@@ -24,6 +24,20 @@ def taa_module():
 class RecordingAlpha(object):
     """Wraps an alpha model: logs every call time and (optionally) probes signals at that instant."""
 
+    _OWN = ('inner', 'calls', 'outputs', 'probes', 'probe')
+
+    def __getattr__(self, name):
+        # transparent: every other attribute (universe, signal, ...) is the wrapped model's
+        if name in RecordingAlpha._OWN:
+            raise AttributeError(name)
+        return getattr(self.__dict__['inner'], name)
+
+    def __setattr__(self, name, value):
+        if name in RecordingAlpha._OWN:
+            object.__setattr__(self, name, value)
+        else:
+            setattr(self.inner, name, value)
+
     def __init__(self, inner, probe=None):
         self.inner = inner
         self.calls = []
@@ -146,6 +160,8 @@ def run_session(cfg, csv_path, symbols, data_source=None, probe_signals=False, h
     start, end = cal.ts6(cfg['start']), cal.ts6(cfg['end'])
     shared = shared or {}
     universe = shared.get('universe') or build_universe(q, cfg['universe'])
+    # the alpha model may be driven by a universe of its own (e.g. dated entries) while the session trades a wider one
+    alpha_universe = build_universe(q, cfg['alpha_universe']) if cfg.get('alpha_universe') else universe
     ds = data_source or q.CSVDailyBarDataSource(csv_path, q.Equity, adjust_prices=cfg.get('adjust', True),
                                                 csv_symbols=list(symbols))
     dh = data_handler or q.BacktestDataHandler(universe, data_sources=[ds])
@@ -153,10 +169,12 @@ def run_session(cfg, csv_path, symbols, data_source=None, probe_signals=False, h
     acfg = cfg['alpha']
     signals = None
     sig = {}
+    # signals may watch a universe of their own (a benchmark, assets not traded yet) - wider than the session's
+    sig_universe = build_universe(q, cfg['signal_universe']) if cfg.get('signal_universe') else universe
     if acfg['kind'] in ('topn', 'sma', 'invvol') or cfg.get('signals'):
         for name, lbs in (cfg.get('signals') or {}).items():
             cls = {'momentum': q.MomentumSignal, 'sma': q.SMASignal, 'vol': q.VolatilitySignal}[name]
-            sig[name] = cls(start, universe, list(lbs))
+            sig[name] = cls(start, sig_universe, list(lbs))
         if acfg['kind'] == 'topn' and 'momentum' not in sig:
             sig['momentum'] = q.MomentumSignal(start, universe, [acfg['lookback']])
         if acfg['kind'] == 'sma' and 'sma' not in sig:
@@ -173,7 +191,7 @@ def run_session(cfg, csv_path, symbols, data_source=None, probe_signals=False, h
     elif acfg['kind'] == 'hist':
         alpha = HistCloseAlpha(ds, universe, acfg['lookback'], dh=dh if acfg.get('via_handler') else None, tz=acfg.get('tz'))
     elif acfg['kind'] == 'single':
-        alpha = q.SingleSignalAlphaModel(universe, signal=acfg['signal'])
+        alpha = q.SingleSignalAlphaModel(alpha_universe, signal=acfg['signal'])
     elif acfg['kind'] == 'topn':
         alpha = taa_module().TopNMomentumAlphaModel(signals, acfg['lookback'], acfg['top'], universe, dh)
     elif acfg['kind'] == 'sma':
